@@ -17,7 +17,7 @@
 (*   Correlated       -- one value is computed from another of the same or *)
 (*                       of another login (reuse, truncation, copy).       *)
 (*   FallbackPrng     -- values come from the entropy source while it      *)
-(*                       answers promptly; when it is slow (early boot,    *)
+(*                       answers promptly; when it is slow or fails (early boot,    *)
 (*                       starvation) the generator falls back to a         *)
 (*                       clock-seeded one: TimeSeededPrng while degraded;  *)
 (*   FixedKeyStream   -- values come from a deterministic stream whose key *)
@@ -38,7 +38,7 @@ Val(kind, i) == <<kind, i>>                      \* the value of a kind issued a
 Public(i) == {Val("state", i), Val("nonce", i), Val("challenge", i), Val("time", i)}
 
 VARIABLES issued, known, seedKnown,
-          slow,       \* logins issued while the entropy source was slow
+          slow,       \* logins issued while the entropy source was slow to answer or failing
           observed    \* the attacker has watched an earlier run of the service (its public and its own sessions' values)
 vars == <<issued, known, seedKnown, slow, observed>>
 
@@ -57,7 +57,8 @@ DeriveFromTimeSeed(i) ==
   /\ {Val("time", i), Val("state", i), Val("nonce", i)} \subseteq known
   /\ seedKnown' = seedKnown \cup {i} /\ known' = known \cup {Val("sid", i)} /\ UNCHANGED <<issued, slow, observed>>
 
-\* the same search, possible only for logins issued while the entropy source was slow
+\* the same search, possible only for logins issued while the entropy source was slow or failing (a generator that
+\* hands out values although its source gives it nothing took them from somewhere an attacker can look too)
 DeriveWhenSourceSlow(i) ==
   /\ GenClass = "FallbackPrng" /\ i \in issued /\ i \in slow
   /\ {Val("time", i), Val("state", i), Val("nonce", i)} \subseteq known
